@@ -8,6 +8,7 @@
 package main
 
 import (
+	"reflect"
 	"bytes"
 	"flag"
 	"fmt"
@@ -336,6 +337,11 @@ type frag struct {
 	// translated is the body of that loop (one iteration): TRet = the
 	// iteration ends without effect, TCut k = it reaches statement k
 	loopBody bool
+	// loopHead: the header the loop must have ("" = the push loops' header;
+	// "for" = a bare "for {")
+	loopHead string
+	// pinTails: emit the statements from each cut point to the end of its block as text
+	pinTails bool
 }
 
 type tr struct {
@@ -834,6 +840,9 @@ func translate(p *pkgInfo, f *frag) string {
 			for _, n := range fl.Names {
 				init := ""
 				if v, ok := f.inits[n.Name]; ok {
+					if v == "" {
+						continue // a result the fragment does not track
+					}
 					init = v
 				} else {
 					switch src(fl.Type) {
@@ -864,9 +873,22 @@ func translate(p *pkgInfo, f *frag) string {
 				die("%s (%s): statement outside the loop is not in the allow-list: %q", f.coq, f.fn, src(s))
 			}
 		}
-		if loop == nil || loop.Init == nil || loop.Cond == nil || loop.Post == nil ||
-			src(loop.Init) != "i := 0" || src(loop.Cond) != "i < len(x)" || src(loop.Post) != "i++" {
-			die("%s (%s): expected the loop \"for i := 0; i < len(x); i++\"", f.coq, f.fn)
+		want := f.loopHead
+		if want == "" {
+			want = "i := 0; i < len(x); i++"
+		}
+		have := "for"
+		if loop != nil && (loop.Init != nil || loop.Cond != nil || loop.Post != nil) {
+			part := func(n ast.Node) string {
+				if n == nil || reflect.ValueOf(n).IsNil() {
+					return ""
+				}
+				return src(n)
+			}
+			have = part(loop.Init) + "; " + part(loop.Cond) + "; " + part(loop.Post)
+		}
+		if loop == nil || have != want {
+			die("%s (%s): expected the loop header %q, found %q", f.coq, f.fn, want, have)
 		}
 		body = loop.Body.List
 	}
@@ -875,7 +897,7 @@ func translate(p *pkgInfo, f *frag) string {
 	for i, c := range t.cutSrc {
 		fmt.Fprintf(&b, "(* %s cut %d: %s *)\n", f.coq, i, strings.ReplaceAll(strings.ReplaceAll(strings.ReplaceAll(c, "\n", " "), "*)", "* )"), "(*", "( *"))
 	}
-	if f.loopBody {
+	if f.loopBody || f.pinTails {
 		var tails []string
 		for i := range t.cutSrc {
 			tails = append(tails, "\""+strings.ReplaceAll(t.cutTail[i], "\"", "\"\"")+"\"%string")
@@ -1053,6 +1075,67 @@ func main() {
 			exprMap: map[string]string{"r.isFull()": "full", "err != nil": "rejected"},
 			inits:   map[string]string{"meth": ""},
 			skip:    []string{"var pct int", "var err error", "err = meth(x[i])", "pct++", "return r"}},
+		{coq: "g_implode_iter", fn: "stack.implode", mode: "Z", ret: "tres", loopBody: true, loopHead: "for",
+			params:  [][2]string{{"ulen", "Z"}, {"isnil", "bool"}, {"v_ct", "Z"}},
+			exprMap: map[string]string{"r.ulen()": "ulen", "(*r)[start+ct+1] == nil": "isnil"},
+			inits:   map[string]string{"spat": "", "tpat": ""},
+			skip: []string{"var ct int", "tpat = make([]int, len(spat), len(spat))", "tpat[0] = 1", "r.lock()", "defer r.unlock()", "return"},
+			zvars: []string{"start", "ct"}},
+		{coq: "g_verify_iter", fn: "stack.verifyImplode", mode: "Z", ret: "tres", loopBody: true, loopHead: "i := 1; i < len(spat); i++",
+			params: [][2]string{{"same", "bool"}, {"tnz", "bool"}, {"dlen", "Z"}, {"tlen", "Z"}, {"i", "Z"}, {"v_last0", "Z"}},
+			exprMap: map[string]string{"spat[i] == tpat[i]": "same", "tpat[i] != 0": "tnz", "len(data)": "dlen", "len(tpat)": "tlen", "i": "i"},
+			inits:   map[string]string{"spat": "", "tpat": "", "last": "v_last0", "err": ""},
+			skip: []string{"last = -1", `err = errorf("defragmentation failed; inconsistent slice results")`, "data := make(map[string]string, len(tpat))",
+				"var fail bool", "key := `S[` + itoa(i-1) + `]`", "data[key] = `match:` + bool2str(result)", "if !fail {\n\terr = nil\n}", "last--", "return"},
+			zvars: []string{"last"}, bvars: []string{"fail"}},
+		{coq: "g_defrag_after", fn: "stack.defrag", mode: "Z", ret: "tres", loopSkip: true,
+			params:   [][2]string{{"start1", "Z"}},
+			exprMap:  map[string]string{},
+			exprMap2: map[string]string{"start": "start1"},
+			skip:     []string{"var spat []int = make([]int, r.len(), r.len())"},
+			zvars:    []string{}, bvars: []string{"looped"}},
+		{coq: "g_reset", fn: "stack.reset", mode: "Z", ret: "tres",
+			params: [][2]string{{"len", "Z"}}, exprMap: map[string]string{"r.len()": "len"}, skip: locks},
+		{coq: "g_remove", fn: "stack.remove", mode: "Z", ret: "tres", loopSkip: true,
+			params:   [][2]string{{"found", "bool"}, {"notnil", "bool"}, {"ulen", "Z"}, {"ulen1", "Z"}},
+			exprMap:  map[string]string{"r.ulen()": "ulen", "found": "found"},
+			exprMap2: map[string]string{"r.ulen()": "ulen1", "slice != nil": "notnil", "u1": "v_u1"},
+			inits:    map[string]string{"slice": "", "idx": ""},
+			skip: append([]string{"var found bool", "var index int", "slice, index, found = r.index(idx)", "var contents []any", "var preserved int",
+				"cfg, _ := r.config()", "var R stack = make(stack, 0)", "R = append(R, cfg)", "R = append(R, contents...)", "*r = R"}, locks...),
+			zvars: []string{}, bvars: []string{"looped", "ok"}},
+		{coq: "g_wrap_Push", fn: "Stack.Push", mode: "Z", ret: "tres", pinTails: true,
+			params:  [][2]string{{"init", "bool"}, {"ro", "bool"}},
+			exprMap: map[string]string{"r.IsInit()": "init", "r.getState(ronly)": "ro"},
+			inits:   map[string]string{"popped": "", "slice": "", "idx": "", "i": "", "j": ""}},
+		{coq: "g_wrap_Pop", fn: "Stack.Pop", mode: "Z", ret: "tres", pinTails: true,
+			params:  [][2]string{{"empty", "bool"}, {"ro", "bool"}},
+			exprMap: map[string]string{"r.IsEmpty()": "empty", "r.getState(ronly)": "ro"},
+			inits:   map[string]string{"popped": "", "slice": "", "idx": "", "i": "", "j": ""}},
+		{coq: "g_wrap_Remove", fn: "Stack.Remove", mode: "Z", ret: "tres", pinTails: true,
+			params:  [][2]string{{"init", "bool"}, {"ro", "bool"}},
+			exprMap: map[string]string{"r.IsInit()": "init", "r.getState(ronly)": "ro"},
+			inits:   map[string]string{"popped": "", "slice": "", "idx": "", "i": "", "j": ""}},
+		{coq: "g_wrap_Swap", fn: "Stack.Swap", mode: "Z", ret: "tres", pinTails: true,
+			params:  [][2]string{{"init", "bool"}, {"ro", "bool"}},
+			exprMap: map[string]string{"r.IsInit()": "init", "r.getState(ronly)": "ro"},
+			inits:   map[string]string{"popped": "", "slice": "", "idx": "", "i": "", "j": ""}},
+		{coq: "g_wrap_Reverse", fn: "Stack.Reverse", mode: "Z", ret: "tres", pinTails: true,
+			params:  [][2]string{{"empty", "bool"}, {"ro", "bool"}},
+			exprMap: map[string]string{"r.IsEmpty()": "empty", "r.getState(ronly)": "ro"},
+			inits:   map[string]string{"popped": "", "slice": "", "idx": "", "i": "", "j": ""}},
+		{coq: "g_wrap_Reset", fn: "Stack.Reset", mode: "Z", ret: "tres", pinTails: true,
+			params:  [][2]string{{"init", "bool"}, {"ro", "bool"}},
+			exprMap: map[string]string{"r.IsInit()": "init", "r.getState(ronly)": "ro"},
+			inits:   map[string]string{"popped": "", "slice": "", "idx": "", "i": "", "j": ""}},
+		{coq: "g_wrap_Insert", fn: "Stack.Insert", mode: "Z", ret: "tres", pinTails: true,
+			params:  [][2]string{{"init", "bool"}, {"notnil", "bool"}, {"ro", "bool"}},
+			exprMap: map[string]string{"r.IsInit()": "init", "x != nil": "notnil", "r.getState(ronly)": "ro"},
+			inits:   map[string]string{"x": "", "left": "", "idx": ""}, bvars: []string{"ok"}},
+		{coq: "g_wrap_Replace", fn: "Stack.Replace", mode: "Z", ret: "tres", pinTails: true,
+			params:  [][2]string{{"init", "bool"}, {"notnil", "bool"}, {"ro", "bool"}},
+			exprMap: map[string]string{"r.IsInit()": "init", "x != nil": "notnil", "r.getState(ronly)": "ro"},
+			inits:   map[string]string{"x": "", "left": "", "idx": ""}, bvars: []string{"ok"}},
 		{coq: "g_pop", fn: "stack.pop", mode: "Z", ret: "tres",
 			params:  [][2]string{{"ulen", "Z"}, {"fifo", "bool"}, {"len", "Z"}},
 			exprMap: map[string]string{"r.ulen()": "ulen", "r.isFIFO()": "fifo", "len(*r)": "len"},
